@@ -54,6 +54,11 @@ impl Rng {
     }
 }
 
+fn echo_enabled() -> bool {
+    static ECHO: std::sync::OnceLock<bool> = std::sync::OnceLock::new();
+    *ECHO.get_or_init(|| std::env::var_os("WACSIM_TRACE").is_some())
+}
+
 enum Mode {
     Explore(Rng),
     Replay,
@@ -172,6 +177,9 @@ impl Tape {
     /// Never draws and never reads a clock.
     pub fn event(&mut self, e: impl AsRef<str>) {
         let e = e.as_ref();
+        if echo_enabled() {
+            eprintln!("  | {e}");
+        }
         self.hasher.update((e.len() as u64).to_le_bytes());
         self.hasher.update(e.as_bytes());
         self.events += 1;
